@@ -686,10 +686,10 @@ func (w *dimWalker) stmt(s ast.Stmt) {
 // dimCutRoots: entry points excluded by the property (NetworkSimplex positioner, spline routing) and the named suppression.
 func dimCutRoots(m *Model) map[*ssa.Function]string {
 	out := map[*ssa.Function]string{}
-	if f := m.SSAFunc("internal/phase4", "execNetworkSimplex"); f != nil {
+	if f := m.SSAFunc("internal/phase4", dispatchCallee(m, "internal/phase4", "NetworkSimplex", "execNetworkSimplex")); f != nil {
 		out[f] = "NetworkSimplex positioner (works on an integer grid; excluded by the property)"
 	}
-	if f := m.SSAFunc("internal/phase5", "execSplines"); f != nil {
+	if f := m.SSAFunc("internal/phase5", dispatchCallee(m, "internal/phase5", "Splines", "execSplines")); f != nil {
 		out[f] = "spline routing (excluded by the property)"
 	}
 	if f := m.SSAFunc("internal/phase5", "flatNonConsecutive"); f != nil {
